@@ -7,6 +7,13 @@ func init() {
 	cnt := func(driver string, budget float64) Scenario {
 		return Scenario{Name: "C16/counter-" + driver, Build: sched, Pkg: "internal", Test: "TestVerif_C16Counter", Params: "driver=" + driver, Shards: 1, BudgetS: budget}
 	}
+	bfs := func(cfg string, shards int, depth string, budget float64) Scenario {
+		p := "cfg=" + cfg
+		if depth != "" {
+			p += ",depth=" + depth
+		}
+		return Scenario{Name: "C16/bfs-" + cfg, Build: sched, Pkg: "internal", Test: "TestVerif_C16Bfs", Params: p, Shards: shards, BudgetS: budget}
+	}
 	register(&Check{
 		ID: "C16", Level: "model_checking", Engine: "E1-ICB", DesignRef: "DESIGN.md §4 C16",
 		Technique: "stateless model checking of the real Store under a controlled scheduler (iterative preemption bounding) for the counters/size views; exhaustive state-matching search (E1-SK) of the striped counter with every atomic a scheduling point",
@@ -16,9 +23,11 @@ func init() {
 		Assume:    []string{"sequentially consistent atomics", "for the loading store only Hits+Misses==calls and Hits<=calls are checked (a caller that joins another caller's load is counted as a miss by the code and is neither clearly a hit nor a miss in the statement)"},
 		Quick: []Scenario{
 			cnt("s1-3x2", 60), cnt("s2-3x1", 60), cnt("s2-2x2", 60),
+			bfs("views-ttl", 8, "", 60), bfs("edges", 8, "7", 60), bfs("rearm", 8, "8", 60), bfs("refused", 4, "7", 60), bfs("loading", 4, "7", 60), bfs("ttl-mix", 8, "8", 60), bfs("loader-ttl", 8, "8", 60), bfs("m1-ttl", 8, "8", 60),
 			mk("V1-hit-miss", 8, "2", 60), mk("V2-pressure", 8, "2", 60), mk("V3-loading", 8, "2", 60), mk("V4-load-vs-set", 6, "2", 60), mk("V7-concurrent-wait", 8, "2", 60), mk("V5c-same-key-reset-after-expiry", 8, "2", 60), mk("V5b-pool-same-key-reuse-expiry", 8, "2", 60), mk("V6p-pool-delete-reset", 8, "2", 60), mk("V8-gets-around-the-deadline", 8, "2", 60), mk("V8L-loading-gets-around-the-deadline", 8, "2", 60),
 		},
 		Thorough: []Scenario{
+			bfs("views-ttl", 16, "12", 600), bfs("edges", 16, "9", 600), bfs("rearm", 16, "10", 600), bfs("refused", 8, "9", 600), bfs("loading", 8, "9", 600), bfs("ttl-mix", 16, "11", 600), bfs("loader-ttl", 16, "10", 600), bfs("m1-ttl", 16, "10", 600),
 			cnt("s1-3x2", 600), cnt("s2-3x1", 600), cnt("s2-2x2", 600),
 			mk("V1-hit-miss", 16, "3", 900), mk("V2-pressure", 16, "3", 900), mk("V3-loading", 16, "3", 900), mk("V4-load-vs-set", 16, "3", 900), mk("V7-concurrent-wait", 16, "3", 900), mk("V5c-same-key-reset-after-expiry", 16, "3", 900), mk("V5b-pool-same-key-reuse-expiry", 16, "3", 900), mk("V6p-pool-delete-reset", 16, "3", 900), mk("V8-gets-around-the-deadline", 16, "3", 900), mk("V8L-loading-gets-around-the-deadline", 16, "3", 900), mk("V2p-pool-pressure", 16, "2", 900),
 		},
